@@ -370,6 +370,8 @@ func otShapeNormalize(plan *otShapePlan, buffer *Buffer, font *Font) {
 			if buffer.Info[i].codepoint == 0x034F /*CGJ*/ &&
 				(buffer.Info[i+1].getModifiedCombiningClass() == 0 || buffer.Info[i-1].getModifiedCombiningClass() <= buffer.Info[i+1].getModifiedCombiningClass()) {
 				buffer.Info[i].unhide()
+				// whether lookups may skip this CGJ was decided by looking at both neighbours
+				buffer.unsafeToBreak(i-1, i+2)
 			}
 		}
 	}
